@@ -70,6 +70,7 @@ def build_runner(case, log, workdir=None):
             for p in reversed(range(len(grid))):
                 self.params.set_unpack_parameter(pc.NAMES[p])
             self.attempt = {}
+            self.buf = np.zeros(2)
 
         def _run_simulation(self, current_params):
             v = var_of(current_params)
@@ -87,6 +88,9 @@ def build_runner(case, log, workdir=None):
                 raise SkipThisOne("planned skip")
             log.append(["call", v, a, "ok"])
             r = SimulationResults()
+            # an array-valued result reported from a work buffer that the iteration reuses for every call
+            self.buf[:] = [2 ** (a - 1), 1]
+            r.add_new_result("vec", Result.SUMTYPE, self.buf)
             r.add_new_result("tok", Result.SUMTYPE, 2 ** (a - 1))
             r.add_new_result("num", Result.RATIOTYPE, 2 ** (a - 1), 2 ** 20)
             r.add_new_result("cho", Result.CHOICETYPE, a % 3, 3)
@@ -126,6 +130,12 @@ def check_results(lst_of, stored, what):
             return f"{what}: {len(lst)} stored results for {name}, expected {len(stored)}"
     for i, st in enumerate(stored):
         m = sorted(st["merged"])
+        try:
+            vec = lst_of("vec")[i].get_result()
+            if list(np.asarray(vec, dtype=float)) != [float(sum(2 ** (a - 1) for a in m)), float(len(m))]:
+                return f"{what}: variation {st['v']}: array-valued result {vec} is not the sum over attempts {m} (reported from a reused buffer)"
+        except KeyError:
+            pass
         tok = lst_of("tok")[i]
         got = decode(tok.get_result())
         if got != m:
@@ -163,9 +173,13 @@ def run_case(case):
             r.partial_results_folder = os.path.join(wd, "partial")
         d = None
         sim = case["nsim"] - 1          # the emitted summary describes the LAST simulate() call of the chain
+        earlier = None
         for k in range(sim):              # earlier calls on the same runner (their own summaries are separate cases)
             r.rep_max = cfg["repmax"]
             r.simulate()
+            if not single:
+                # what the user keeps from the earlier call is a value: the next simulate() must not change it
+                earlier = (r.results, [x.get_result() for x in r.results["tok"]], list(r.results.runned_reps))
         r.rep_max = cfg["repmax"] if sim == 0 else cfg["repmax2"]
         for sim in [sim]:
             del log[:]
@@ -182,6 +196,10 @@ def run_case(case):
                 if isinstance(ex, SkipThisOne):
                     return "SkipThisOne raised by the first repetition of a variation escaped simulate()", "FirstRepSkipEscapes", log
                 return f"simulate() raised {type(ex).__name__}: {ex}", None, log
+            if earlier is not None:
+                res0, vals0, reps0 = earlier
+                if [x.get_result() for x in res0["tok"]] != vals0 or list(res0.runned_reps) != reps0:
+                    return "the results object of the EARLIER simulate() call was changed by the later call", None, log
             bad = [e for e in log if e[0] == "bad"]
             if bad:
                 return f"variation {bad[0][1]}: {bad[0][2]}", None, log
